@@ -107,6 +107,16 @@ pub struct SessionSpec {
     /// the caller releases a value it was handed as soon as no variable can reach it any more
     /// (false: it keeps everything until the session ends, like the shipped prompt)
     pub caller_releases: bool,
+    /// also audit the ledger when the session ends (C04: nothing is left once the pair is dropped
+    /// and the caller has released what it was handed)
+    pub ledger: bool,
+}
+
+/// set by the session-ledger engine (C04) around the scenarios it runs
+pub static LEDGER_MODE: std::sync::atomic::AtomicBool = std::sync::atomic::AtomicBool::new(false);
+
+fn ledger_mode() -> bool {
+    LEDGER_MODE.load(std::sync::atomic::Ordering::Relaxed)
 }
 
 impl SessionSpec {
@@ -120,6 +130,7 @@ impl SessionSpec {
             "collect_every_step": self.collect_every_step,
             "alloc_mode": alloc::mode_name(self.alloc_mode),
             "caller_releases": self.caller_releases,
+            "ledger": self.ledger || ledger_mode(),
         })
     }
     pub fn from_json(v: &Value) -> SessionSpec {
@@ -138,6 +149,7 @@ impl SessionSpec {
             collect_every_step: v["collect_every_step"].as_bool().unwrap_or(false),
             alloc_mode: alloc::mode_from_name(v["alloc_mode"].as_str().unwrap_or("plain")),
             caller_releases: v["caller_releases"].as_bool().unwrap_or(false),
+            ledger: v["ledger"].as_bool().unwrap_or(false),
         }
     }
 }
@@ -312,14 +324,31 @@ impl Session {
             let _g = sim::enter_harness();
             let objs = {
                 let sh = shadow::lock();
-                sim::collect_objects_ordered(&sh, &[self.results.as_slice()])
+                // (a container released early may have been the only path to something still owned)
+                sim::collect_objects_ordered(&sh, &[self.results.as_slice(), self.owned.as_slice()])
             };
             for (_, o) in objs {
                 o.free();
             }
         }
-        let findings = CTX.with(|c| std::mem::take(&mut c.borrow_mut().findings));
+        let mut findings = CTX.with(|c| std::mem::take(&mut c.borrow_mut().findings));
         let mut sh = shadow::lock();
+        let left = sh.alive_of(SESSION_ID);
+        if !left.is_empty() {
+            let mut kinds: Vec<&str> = left.iter().map(|a| sh.get(*a).map(|e| shadow::kind_name(e.kind)).unwrap_or("?")).collect();
+            kinds.sort();
+            kinds.dedup();
+            let what: Vec<String> = left.iter().take(6).map(|a| sh.describe(*a)).collect();
+            findings.push(Finding {
+                class: "leak".into(),
+                key: format!("session-end:{}", kinds.join("+")),
+                detail: format!(
+                    "{} object(s) still allocated after the compiler and the machine were dropped and the caller released every value it was handed: {}",
+                    left.len(),
+                    what.join(", ")
+                ),
+            });
+        }
         sh.reset_owner(SESSION_ID);
         drop(sh);
         alloc::flush_parked();
@@ -620,8 +649,10 @@ pub fn run_session(spec: &SessionSpec, verbose: bool) -> SessionResult {
             let e = (r.effects as usize).min(eq.len());
             p.extend(eq[..e].iter().cloned());
             let done: Vec<String> = declared(&eq[..e].join(" "));
+            let before: Vec<String> = declared(&p[..p.len() - e].join(" "));
             for n in declared(&text) {
-                if !done.contains(&n) {
+                // (a name that a completed line had declared before keeps that declaration)
+                if !done.contains(&n) && !before.contains(&n) {
                     poisoned.push(n);
                 }
             }
@@ -705,8 +736,9 @@ pub fn run_session(spec: &SessionSpec, verbose: bool) -> SessionResult {
             (Fail::Run(idx), _) => {
                 let idx = (*idx).min(line.stmts.len());
                 let done: Vec<String> = declared(&line.stmts[..idx].iter().map(|s| s.src.as_str()).collect::<Vec<_>>().join(" "));
+                let before: Vec<String> = declared(&p.join(" "));
                 for n in declared(&text) {
-                    if !done.contains(&n) {
+                    if !done.contains(&n) && !before.contains(&n) {
                         poisoned.push(n);
                     }
                 }
@@ -739,7 +771,14 @@ pub fn run_session(spec: &SessionSpec, verbose: bool) -> SessionResult {
     }
     res.released_early = s.released_early;
     let end = s.finish();
+    let ledger = spec.ledger || ledger_mode();
     for f in end {
+        if f.class == "leak" {
+            if ledger && findings.is_empty() {
+                findings.push(f);
+            }
+            continue;
+        }
         if HEAP_CLASSES.contains(&f.class.as_str()) && findings.is_empty() {
             findings.push(Finding {
                 class: f.class.clone(),
@@ -791,7 +830,7 @@ fn line(label: &str, stmts: Vec<SStmt>, fail: Fail, has_value: bool, injectable:
     }
 }
 
-pub const ALPHABET: usize = 28;
+pub const ALPHABET: usize = 30;
 
 /// Template `t` at session position `pos` (names are position-based, so never re-declared).
 fn template(t: usize, pos: usize, env: &mut GEnv) -> SLine {
@@ -1018,6 +1057,17 @@ fn template(t: usize, pos: usize, env: &mut GEnv) -> SLine {
                 ),
             }
         }
+        28 => match env.latest_any() {
+            // an existing global is declared again by a line that fails before the assignment: the
+            // earlier declaration and its value stay what they were
+            Some(n) => line("redeclare-run-fail", vec![st(&format!("stel {} = [\"q\", [1][5]];", n), false)], Fail::Run(0), false, false),
+            None => template(18, pos, env),
+        },
+        29 => match env.latest("int") {
+            // an existing global is declared again (whatever that means in a single program, it means here)
+            Some(n) => line("redeclare", vec![st(&format!("stel {} = 8;", n), true), st(&format!("{};", n), false)], Fail::None, true, true),
+            None => template(0, pos, env),
+        },
         25 => {
             // the user just presses enter (or types blanks / a comment): an empty program
             let text = ["", "   ", "// niets"][pos % 3];
@@ -1133,6 +1183,15 @@ impl<'a> SGen<'a> {
             0 | 1 | 2 => {
                 // declaration
                 let ty = self.with_gen(|g| g.value_ty());
+                // now and then of a name that exists already (same type; whatever a second
+                // declaration means in a single program, it means in a session)
+                let again: Vec<Var> = self.globals.iter().filter(|v| v.ty == ty && !(v.ty == Ty::Str && v.min_len > 0)).cloned().collect();
+                if !again.is_empty() && self.rng.chance(1, 8) {
+                    let v = self.rng.pick(&again).clone();
+                    let e = self.with_gen(|g| g.expr(&ty, depth));
+                    let e = Self::wrap_int(&ty, e);
+                    return (st(&format!("stel {} = {};", v.name, e), true), None, "redecl");
+                }
                 let name = self.fresh();
                 if ty == Ty::Str && self.rng.chance(1, 2) {
                     let n = 10 + self.rng.below(99990);
@@ -1246,7 +1305,7 @@ impl<'a> SGen<'a> {
     }
 }
 
-const RUN_FAILS: &[&str] = &["(1 + ja);", "[1, 2][5];", "int(\"x\");", "lengte(1);", "(!5);", "[\"a\", (2.5 + 1)];", "\"abc\"[7];", "[1, 2][-5];", "\"abc\"[-7];"];
+const RUN_FAILS: &[&str] = &["(1 + ja);", "[1, 2][5];", "int(\"x\");", "lengte(1);", "(!5);", "[\"a\", (2.5 + 1)];", "\"abc\"[7];", "[1, 2][-5];", "\"abc\"[-7];", "(nee || \"abc\");", "(string(5) < 1);", "([2.5] * 2);"];
 const PARSE_FAILS: &[&str] = &["stel = 1", "(1 + ", "[1, 2", "als { }", "1 +", "stel q 5", "zolang ja", "{ 1; ", "stel q = \"abc", "1 2 )"];
 
 impl<'a> SGen<'a> {
@@ -1534,6 +1593,11 @@ impl<'a> SGen<'a> {
                         ));
                         format!("f{}();", a)
                     }
+                    3 if !self.globals.is_empty() => {
+                        // an existing global is declared again by a statement that fails before the assignment
+                        let a = self.rng.pick(&self.globals).name.clone();
+                        format!("stel {} = [0, {}];", a, self.rng.pick(RUN_FAILS).trim_end_matches(';'))
+                    }
                     2 if !self.globals.is_empty() => {
                         // the failure strikes while values of global variables are pending operands
                         let a = self.rng.pick(&self.globals).name.clone();
@@ -1580,6 +1644,7 @@ fn random_session(rng: &mut Rng) -> SessionSpec {
         collect_every_step,
         alloc_mode,
         caller_releases,
+        ledger: false,
     }
 }
 
@@ -1587,7 +1652,7 @@ fn random_session(rng: &mut Rng) -> SessionSpec {
 // directed sessions
 
 fn directed(i: usize) -> Option<SessionSpec> {
-    let mk = |lines: Vec<SLine>| SessionSpec { lines, crash: None, compile_crash: None, collect_every_step: false, alloc_mode: alloc::PLAIN, caller_releases: i % 2 == 0 };
+    let mk = |lines: Vec<SLine>| SessionSpec { lines, crash: None, compile_crash: None, collect_every_step: false, alloc_mode: alloc::PLAIN, caller_releases: i % 2 == 0, ledger: false };
     match i {
         0 => {
             // many failing lines that each leave operands and frames behind, then function calls
@@ -1754,7 +1819,7 @@ pub fn small_session(seed: u64, i: u64) -> SessionSpec {
 /// Quick tier: besides all sessions of length 1-2, every "sandwich" of three lines
 /// (a declaration, any failing template, an observing template) - the length-3 sessions that matter most.
 const SANDWICH_SETUP: &[usize] = &[0, 2, 3];
-const SANDWICH_FAIL: &[usize] = &[12, 13, 14, 15, 16, 17, 18, 23, 24, 27];
+const SANDWICH_FAIL: &[usize] = &[12, 13, 14, 15, 16, 17, 18, 23, 24, 27, 28];
 const SANDWICH_OBSERVE: &[usize] = &[5, 6, 7, 9, 10, 19, 20, 21, 22, 26];
 
 fn sandwiches() -> u64 {
@@ -1955,7 +2020,7 @@ pub fn scenario(acc: &mut Acc, seed: u64, index: u64, tier: Tier) {
             3
         };
         let lines = enumerated_session(code, len);
-        let sp = SessionSpec { lines, crash: None, compile_crash: None, collect_every_step: false, alloc_mode: alloc::PLAIN, caller_releases: index % 4 != 3 };
+        let sp = SessionSpec { lines, crash: None, compile_crash: None, collect_every_step: false, alloc_mode: alloc::PLAIN, caller_releases: index % 4 != 3, ledger: false };
         acc.count("enumerated_sessions", 1);
         h = explore(acc, &sp, seed, index, true, &mut rng);
         // the same session once more with a collection at every instruction boundary
@@ -2138,6 +2203,49 @@ pub fn scenario_c03(acc: &mut Acc, seed: u64, index: u64, tier: Tier) {
         let base = v.class.clone();
         if HEAP_CLASSES.contains(&base.as_str()) {
             v.property = "C03".into();
+            v.index = index;
+            acc.violation(v);
+        }
+    }
+}
+
+
+// ---------------------------------------------------------------------------------------------
+// C04 across retained lines: the same sessions, judged by the ledger only - once the pair is dropped
+// and the caller has released what it was handed nothing is left, nothing was released twice, and
+// every value handed out was valid
+
+pub const LEDGER_CLASSES: &[&str] = &["leak", "double-release", "release-unknown", "result-invalid"];
+
+pub fn scenarios_c04(tier: Tier) -> u64 {
+    DIRECTED
+        + match tier {
+            Tier::Quick => 3_000,
+            Tier::Thorough => 80_000,
+        }
+}
+
+pub fn scenario_c04(acc: &mut Acc, seed: u64, index: u64, tier: Tier) {
+    let mut sub = Acc::new(acc.solo);
+    // other random sessions than the ones C17 / C03 look at
+    let mapped = if index < DIRECTED { index } else { DIRECTED + enumerated_count(tier) + 1_000_000 + (index - DIRECTED) };
+    LEDGER_MODE.store(true, std::sync::atomic::Ordering::Relaxed);
+    scenario(&mut sub, seed, mapped, tier);
+    LEDGER_MODE.store(false, std::sync::atomic::Ordering::Relaxed);
+    for (k, v) in &sub.counters {
+        acc.count(&format!("session_{}", k), *v);
+    }
+    for (k, set) in &sub.distinct {
+        for h in set {
+            acc.distinct(&format!("session_{}", k), *h);
+        }
+    }
+    for (_, h) in &sub.log_hashes {
+        acc.log(index, *h);
+    }
+    for mut v in sub.violations {
+        if LEDGER_CLASSES.contains(&v.class.as_str()) {
+            v.property = "C04".into();
             v.index = index;
             acc.violation(v);
         }
